@@ -38,6 +38,10 @@ func init() {
 }
 
 var tag = log.RegisterTag("_c03_t")
+var tagU = log.RegisterTag("_c03_u")
+
+// twoTags: goroutines with an odd number log through the second tag (path twologgers+samefile)
+var twoTags bool
 
 // ---------------------------------------------------------------- slow sink
 
@@ -120,7 +124,7 @@ func genParams(t *rapid.T) params {
 	p.G = rapid.IntRange(2, 64).Draw(t, "G")
 	p.PerG = rapid.IntRange(1, 12).Draw(t, "perG")
 	p.Layout = rapid.SampledFrom([]string{"TextLayout", "JSONLayout"}).Draw(t, "layout")
-	p.Path = rapid.SampledFrom([]string{"builtin", "logger+console", "logger+console", "logger+layout+console", "consolelogger", "logger+file", "filelogger", "logger+rolling", "logger+layout+file", "rollinglogger", "rollinglogger+layout"}).Draw(t, "path")
+	p.Path = rapid.SampledFrom([]string{"builtin", "logger+console", "logger+console", "logger+layout+console", "consolelogger", "logger+file", "filelogger", "logger+rolling", "logger+layout+file", "rollinglogger", "rollinglogger+layout", "twologgers+samefile"}).Draw(t, "path")
 	p.BufCap = rapid.SampledFrom([]string{"10KB", "10KB", "1KB", "2KB"}).Draw(t, "bufferCap")
 	capBytes := map[string]int{"10KB": 10240, "1KB": 1024, "2KB": 2048}[p.BufCap]
 	n := rapid.IntRange(1, 4).Draw(t, "nsizes")
@@ -167,6 +171,20 @@ func (p params) config(dir string) map[string]string {
 		m["appender.a.layout.type"] = p.Layout
 		m[lg+"type"] = "Logger"
 		m[lg+"appenderRef.ref"] = "a"
+	case "twologgers+samefile":
+		// two loggers, each with its own File appender, on one file (say, text events of two
+		// subsystems collected in app.log): every write must still land whole at the end
+		for _, a := range []string{"a", "b"} {
+			m["appender."+a+".type"] = "File"
+			m["appender."+a+".fileDir"] = dir
+			m["appender."+a+".fileName"] = "c03.log"
+			m["appender."+a+".layout.type"] = p.Layout
+		}
+		m[lg+"type"] = "Logger"
+		m[lg+"appenderRef.ref"] = "a"
+		m["logger.u.type"] = "Logger"
+		m["logger.u.tags"] = "_c03_u"
+		m["logger.u.appenderRef.ref"] = "b"
 	case "logger+layout+file":
 		m["appender.a.type"] = "File"
 		m["appender.a.fileDir"] = dir
@@ -228,7 +246,11 @@ func eventTime(e event) time.Time {
 //go:noinline
 func logOne(e event) {
 	// nested containers first (the text layout hands them to an embedded JSON encoder), then the self-validating scalars
-	log.Info(context.WithValue(context.Background(), evKey{}, e), tag, log.Ints("pre", []int{e.g, e.seq}), log.Object("obj", log.Int("g", e.g), log.Strings("s", []string{"x"})),
+	tg := tag
+	if twoTags && e.g%2 == 1 {
+		tg = tagU
+	}
+	log.Info(context.WithValue(context.Background(), evKey{}, e), tg, log.Ints("pre", []int{e.g, e.seq}), log.Object("obj", log.Int("g", e.g), log.Strings("s", []string{"x"})),
 		log.Int("g", e.g), log.Int("seq", e.seq), log.Int("len", len(e.fill)), log.String("fill", e.fill), log.Uint("crc", e.crc))
 }
 
@@ -320,6 +342,7 @@ func runCase(p params, dir string) error {
 		return fixedTime
 	}
 	defer func() { log.TimeNow = nil }()
+	twoTags = p.Path == "twologgers+samefile"
 	if p.CtxFields {
 		shared := make([]log.Field, 0, 32) // room for more than one call's fields
 		shared = append(shared, log.String("req", "r-1"), log.Int("uid", 7))
